@@ -18,10 +18,18 @@ type Event map[string]interface{}
 
 // Recorder collects events under one mutex with one global sequence number.
 type Recorder struct {
-	mu   sync.Mutex
-	evs  []Event
-	last time.Time
-	t0   time.Time
+	mu     sync.Mutex
+	evs    []Event
+	last   time.Time
+	t0     time.Time
+	frozen bool
+}
+
+// Freeze stops recording: the trace ends here (a prefix of a run is still a run).
+func (r *Recorder) Freeze() {
+	r.mu.Lock()
+	r.frozen = true
+	r.mu.Unlock()
 }
 
 // NewRecorder creates a recorder.
@@ -31,6 +39,9 @@ func NewRecorder() *Recorder { return &Recorder{last: time.Now(), t0: time.Now()
 func (r *Recorder) Emit(e Event) int {
 	r.mu.Lock()
 	defer r.mu.Unlock()
+	if r.frozen {
+		return len(r.evs)
+	}
 	e["seq"] = len(r.evs) + 1
 	if _, ok := e["t_us"]; !ok {
 		e["t_us"] = time.Since(r.t0).Microseconds()
@@ -511,6 +522,18 @@ func (w *World) clientPacket(t *Transport, p *Pkt) error {
 		ev["resp"] = ""
 		w.Rec.Emit(ev)
 		t.closeBy("plan")
+	case "lateAck":
+		// processed; the response reaches the client only after a delay (a slow broker)
+		ev["resp"] = ""
+		w.Rec.Emit(ev)
+		if resp != nil {
+			late := resp
+			time.AfterFunc(25*time.Millisecond, func() {
+				w.mu.Lock()
+				defer w.mu.Unlock()
+				t.send(late)
+			})
+		}
 	case "dropAck":
 		ev["resp"] = ""
 		w.Rec.Emit(ev)
